@@ -4,7 +4,9 @@ Open Scope N_scope.
 
 Inductive c20case :=
 | CLock (max : nat) (tr : list msg)          (* the service, driven by messages of 1-3 connections *)
-| CConn (max : nat) (es : list cev).         (* connections (real process_acquired_room / cleanup) on top of the service *)
+| CConn (max : nat) (es : list cev)          (* connections (real process_acquired_room / cleanup) on top of the service *)
+| CLoop (max : nat) (es : list cev).         (* the same, connection 1 being a real LocalPeerService::start loop (kept busy
+                                                inside a RoomList answer, so it never takes a grant): its grants are not observable *)
 
 (* ---------------- observation format ----------------
    per message: [number of grants; c; k; r; c; k; r; ...], the grants of that message ordered by
@@ -151,8 +153,82 @@ Fixpoint foreign_from (s : st) (h : list (N * N)) (tr : list msg) : bool :=
       bad || foreign_from s' (gh_grants (gh_msg h m) g) tl
   end.
 Definition foreign_lock (max : nat) (tr : list msg) : bool := foreign_from (init max) [] tr.
+
+(* ---- "eventually granted": bounded overtaking ----
+   oracle (on the observed grants): while (c, r) waits on live channels, room r is granted to OTHER
+   connections at most `bypass_bound` times (number of connections x (number of rooms + 1): every
+   other connection may pass once per room c itself is served in between). *)
+Fixpoint dedupN (l : list N) : list N :=
+  match l with [] => [] | x :: t => if memN x t then dedupN t else x :: dedupN t end.
+Definition circuits_of (tr : list msg) : list N :=
+  dedupN (flat_map (fun m => match m with Request c _ _ => [c] | _ => [] end) tr).
+Definition rooms_of (tr : list msg) : list N :=
+  dedupN (flat_map (fun m => match m with Request _ rs _ => rs | _ => [] end) tr).
+Definition bypass_bound (tr : list msg) : nat := length (circuits_of tr) * S (length (rooms_of tr)).
+
+Definition bp_msg (w : list (N * N * nat)) (m : msg) : list (N * N * nat) :=
+  match m with
+  | Request c rooms _ =>
+      fold_left (fun acc r => if existsb (fun x => pair_eqb (fst x) (c, r)) acc then acc else acc ++ [((c, r), O)]) rooms w
+  | DropChan c _ => filter (fun x => negb (N.eqb (fst (fst x)) c)) w      (* no promise to that connection any more *)
+  | Unlock _ _ => w
+  end.
+Definition bp_grant (w : list (N * N * nat)) (g : grant) : list (N * N * nat) :=
+  let '(c, _, r) := g in
+  map (fun x => if N.eqb (snd (fst x)) r then (fst x, S (snd x)) else x)
+      (filter (fun x => negb (pair_eqb (fst x) (c, r))) w).
+Fixpoint bypass_from (bound : nat) (w : list (N * N * nat)) (tr : list msg) (gss : list (list grant)) : bool :=
+  match tr, gss with
+  | [], [] => true
+  | m :: tl, gs :: gtl =>
+      let w' := fold_left bp_grant gs (bp_msg w m) in
+      forallb (fun x => Nat.leb (snd x) bound) w' && bypass_from bound w' tl gtl
+  | _, _ => false
+  end.
+Definition bypass_ok (tr : list msg) (obs : list Z) : bool :=
+  match decode (length tr) obs with
+  | Some gss => bypass_from (bypass_bound tr) [] tr gss
+  | None => false
+  end.
+
+(* class 3 (K3, the rotation demotes a blocked waiter), by its cause: in some scan of acquire_lock a
+   live entry whose rooms are all locked is examined, a later entry is granted, and entries that
+   were not examined remain: the blocked entry is re-queued BEHIND the entries that were behind it.
+   Repeating this lets a request be overtaken without bound (theorem C20_starvation_refuted). *)
+Fixpoint acq_demotes (q : list preq) (lk : list rid) (dd : list (N * N)) (seen_blocked : bool) : bool :=
+  match q with
+  | [] => false
+  | p :: rest =>
+      let '(rooms', g) := try_rooms (length (p_rooms p)) (p_rooms p) lk (alive dd p) in
+      match g with
+      | Some _ => seen_blocked && match rest with [] => false | _ => true end
+      | None => acq_demotes rest lk dd (seen_blocked || (alive dd p && match rooms' with [] => false | _ => true end))
+      end
+  end.
+Fixpoint demotes_n (n : nat) (s : st) : bool :=
+  match n with
+  | O => false
+  | S k => acq_demotes (queue s) (locked s) (dead s) false || demotes_n k (fst (acquire_lock s))
+  end.
+Definition demotes_step (s : st) (m : msg) : bool :=
+  match m with
+  | Request c rooms k =>
+      demotes_n (avail s) {| queue := enqueue (queue s) c rooms k; locked := locked s; avail := avail s; dead := dead s |}
+  | Unlock _ r =>
+      if memN r (locked s) then acq_demotes (queue s) (removeN r (locked s)) (dead s) false else false
+  | DropChan _ _ => false
+  end.
+Fixpoint demoted_from (s : st) (tr : list msg) : bool :=
+  match tr with
+  | [] => false
+  | m :: tl => demotes_step s m || demoted_from (fst (step s m)) tl
+  end.
+Definition demoted_lock (max : nat) (tr : list msg) : bool := demoted_from (init max) tr.
+
 Definition known_lock (max : nat) (tr : list msg) : list Z :=
-  if foreign_lock max tr && snd (spec_pair_lock max tr (run_lock max tr)) then [1%Z] else [].
+  let live := snd (spec_pair_lock max tr (run_lock max tr)) in
+  (if foreign_lock max tr && live then [1%Z] else []) ++
+  (if demoted_lock max tr && live then [3%Z] else []).
 
 (* ---------------- connection level ----------------
    observation per event: the grants of the event (as above), then the room tasks in flight after
@@ -214,10 +290,12 @@ Definition set_inbox (s : csp) (c : N) (l : list N) : csp :=
   {| cs_inbox := (c, l) :: filter (fun x => negb (N.eqb (fst x) c)) (cs_inbox s); cs_ended := cs_ended s; cs_tasks := cs_tasks s |}.
 Definition in_use (s : csp) : list N :=
   map snd (cs_tasks s) ++ flat_map (fun x => if memN (fst x) (cs_ended s) then [] else snd x) (cs_inbox s).
-Definition csp_event (max : nat) (s : csp) (e : cev) (gs : list grant) (tasks : list (N * N)) : bool * csp :=
+Definition csp_event (hidden : option N) (max : nat) (s : csp) (e : cev) (gs : list grant) (tasks : list (N * N)) : bool * csp :=
   let live := fun c => negb (memN c (cs_ended s)) in
+  (* while a connection whose grants cannot be observed is alive, what is in use is not known *)
+  let known_use := match hidden with Some h => memN h (cs_ended s) | None => true end in
   let must := match e with
-              | CRequest c [r] => if live c && negb (memN r (in_use s)) && Nat.ltb (length (in_use s)) max
+              | CRequest c [r] => if known_use && live c && negb (memN r (in_use s)) && Nat.ltb (length (in_use s)) max
                                   then existsb (fun g => pair_eqb (cr g) (c, r)) gs else true
               | _ => true
               end in
@@ -229,17 +307,23 @@ Definition csp_event (max : nat) (s : csp) (e : cev) (gs : list grant) (tasks : 
   let s2 := fold_left (fun acc g => set_inbox acc (fst (cr g)) (inbox_of acc (fst (cr g)) ++ [snd (cr g)])) gs s1 in
   (must && nodupN (map snd tasks) && Nat.leb (length tasks) max,
    {| cs_inbox := cs_inbox s2; cs_ended := cs_ended s2; cs_tasks := tasks |}).
-Fixpoint spec_conn_from (max : nat) (s : csp) (es : list cev) (obs : list (list grant * list (N * N))) : bool :=
+Fixpoint spec_conn_from (hidden : option N) (max : nat) (s : csp) (es : list cev) (obs : list (list grant * list (N * N))) : bool :=
   match es, obs with
   | [], [] => true
-  | e :: tl, (gs, ts) :: otl => let '(ok, s') := csp_event max s e gs ts in ok && spec_conn_from max s' tl otl
+  | e :: tl, (gs, ts) :: otl => let '(ok, s') := csp_event hidden max s e gs ts in ok && spec_conn_from hidden max s' tl otl
   | _, _ => false
   end.
-Definition spec_conn (max : nat) (es : list cev) (obs : list Z) : bool :=
+Definition spec_conn (hidden : option N) (max : nat) (es : list cev) (obs : list Z) : bool :=
   match decode_conn (length es) obs with
-  | Some l => spec_conn_from max csp0 es l
+  | Some l => spec_conn_from hidden max csp0 es l
   | None => false
   end.
+(* connection 1 is a real loop: what is sent into its lock channel is not seen *)
+Definition hide1 (gs : list grant) : list grant := filter (fun g => negb (N.eqb (fst (fst g)) 1)) gs.
+Definition run_loop (max : nat) (es : list cev) : list Z :=
+  flat_map (fun y : cst * list msg * list (list grant) =>
+              enc_step (hide1 (sort_g (concat (snd y)))) ++ enc_pairs (running (fst (fst y))))
+           (crun (cinit max) es).
 
 (* known class at connection level, by its cause:
    class 1 (K1 reached without any misbehaving caller): a connection ends while one of its room
@@ -260,6 +344,9 @@ Fixpoint known_conn_from (x : cst) (es : list cev) : list Z :=
   end.
 Definition dedup12 (l : list Z) : list Z :=
   (if existsb (Z.eqb 1) l then [1%Z] else []) ++ (if existsb (Z.eqb 2) l then [2%Z] else []).
+(* exclusive, bounded, once, never lost — the part of the service oracle the theorems carry *)
+Definition spec_core_lock (max : nat) (tr : list msg) (obs : list Z) : bool :=
+  let '(a, b) := spec_pair_lock max tr obs in a && b.
 
 (* the service messages a connection-level history causes *)
 Definition conn_trace (max : nat) (es : list cev) : list msg :=
@@ -267,16 +354,17 @@ Definition conn_trace (max : nat) (es : list cev) : list msg :=
 
 (* ---------------- entry points ---------------- *)
 Definition run_C20 (c : c20case) : list Z :=
-  match c with CLock max tr => run_lock max tr | CConn max es => run_conn max es end.
+  match c with CLock max tr => run_lock max tr | CConn max es => run_conn max es | CLoop max es => run_loop max es end.
 Definition spec_C20 (c : c20case) (obs : list Z) : bool :=
   match c with
-  | CLock max tr => let '(a, b) := spec_pair_lock max tr obs in a && b
-  | CConn max es => spec_conn max es obs
+  | CLock max tr => let '(a, b) := spec_pair_lock max tr obs in a && b && bypass_ok tr obs
+  | CConn max es => spec_conn None max es obs
+  | CLoop max es => spec_conn (Some 1%N) max es obs
   end.
 Definition known_C20 (c : c20case) : list Z :=
   match c with
   | CLock max tr => known_lock max tr
-  | CConn max es => dedup12 (known_conn_from (cinit max) es)
+  | CConn max es | CLoop max es => dedup12 (known_conn_from (cinit max) es)
   end.
 
 Definition eval_C20 (c : c20case) (obs : list Z) : list Z :=
